@@ -17,6 +17,18 @@ Assumptions (recorded in the evidence): pthread mutex / condition variable behav
 (Mesa semantics, spurious wake-ups allowed) and never fail on valid objects; fewer than 2^15
 threads; programs are disciplined (`Disc`: rounds `acquire ; matching release`, a failed acquire
 skips its release).
+
+Section g drops "never fail" for the SAFETY half: `ReachF` adds `failStep` (any `p_mutex_lock`,
+`p_mutex_unlock`, `p_cond_variable_wait`, signal or broadcast call may return FALSE, any number of
+times; a failed call has no effect).  Exclusion and the counter refinement still hold in every
+reachable state (`rw_safety_failing`), an acquire call that fails at its `p_mutex_lock` or at a
+`p_cond_variable_wait` returns FALSE having acquired nothing and leaves a consistent state
+(`failed_lock_acquires_nothing`, `failed_wait_acquires_nothing`, `false_return_holds_nothing`).
+The full statement "FALSE ⇒ the counters do not count the caller" is FALSE of the code on one path:
+a granted acquire whose final `p_mutex_unlock` fails returns FALSE with `active_threads` bumped
+(`failed_unlock_after_grant_keeps_count`, witness `false_return_may_keep_count`); the liveness half
+does not survive failures either (a failed unlock wedges the internal mutex, a failed signal loses
+the wake-up: `liveness_needs_working_primitives`).
 -/
 namespace PV.Props.C02
 open PV.RWLock
@@ -205,6 +217,145 @@ open PV.RWLock.Posix in
 /-- hence, over the trusted machine, writer exclusion holds for the wrapper in every reachable state -/
 theorem posix_safety {s : PState} (h : PReach s) : s.writer.isSome = true → s.readers = [] :=
   preach_safe h
+
+/-! ## g. failing primitives (safety half) -/
+
+/-- exclusion and the counter refinement hold in every state reachable WITH failing primitive calls:
+    at most one writer holds, then no reader; the bit fields are exactly the numbers of (ghost)
+    holders / of threads inside the wait blocks -/
+theorem rw_safety_failing {s : State} (h : ReachF cfg s) :
+    writers s ≤ 1 ∧ (1 ≤ writers s → readers s = 0) ∧
+    s.active = pack (readers s) (writers s) ∧ s.waiting = pack (waitingReaders s) (waitingWriters s) ∧
+    READER_COUNT s.active = BitVec.ofNat 32 (readers s) ∧ WRITER_COUNT s.active = BitVec.ofNat 32 (writers s) := by
+  rw [cfg_is_reference.1] at h
+  have inv := reachF_invS h
+  have b : ∀ p : Thread → Bool, s.threads.countP p < 2^15 := fun p => Nat.lt_of_le_of_lt List.countP_le_length inv.len
+  refine ⟨inv.safe.1, inv.safe.2, inv.act, inv.wai, ?_, ?_⟩
+  · rw [inv.act]; exact READER_COUNT_pack _ _ (b _)
+  · rw [inv.act]; exact WRITER_COUNT_pack _ _ (b _) (b _)
+
+/-- who is counted, with failing calls: a thread between the TRUE return of an acquire and its unlock
+    call is counted in its mode; a thread about to return `ret` from an acquire call through a working
+    `p_mutex_unlock` is counted iff `ret` is TRUE; a thread at the entry of an acquire call, or at /
+    inside / returning from a wait, is not counted -/
+theorem holders_are_api_holders_failing {s : State} {t : Tid} {th : Thread} (h : ReachF cfg s) (hth : s.threads[t]? = some th) :
+    (th.pc = .lock .runlock → th.held = .r) ∧ (th.pc = .lock .wunlock → th.held = .w) ∧
+    (∀ op ret, op.isAcq = true → th.pc = .atUnlock op ret → th.held = if ret then op.heldBy else .none) ∧
+    (∀ op, op.isAcq = true → th.pc = .lock op → th.held = .none) ∧
+    (∀ op cv, th.pc = .atWait op cv ∨ th.pc = .blocked op cv ∨ th.pc = .woken op cv → th.held = .none) := by
+  rw [cfg_is_reference.1] at h
+  exact toks_holder ((reachF_invS h).tok th (List.mem_of_getElem? hth))
+
+/-- **a lock call that fails does not count as holding (1)**: `p_mutex_lock` fails in a lock / trylock
+    call: FALSE is returned and nothing at all has changed — both counter words, the internal mutex,
+    every other thread, the numbers of holders; the caller holds nothing and goes on with its program -/
+theorem failed_lock_acquires_nothing {s s' : State} {t : Tid} {zero : Bool} {th : Thread} {op : Op} (h : ReachF cfg s)
+    (hth : s.threads[t]? = some th) (hpc : th.pc = .lock op) (ha : op.isAcq = true) (hf : failStep s t zero = some s') :
+    s'.active = s.active ∧ s'.waiting = s.waiting ∧ s'.mutex = s.mutex ∧
+    readers s' = readers s ∧ writers s' = writers s ∧ (∀ u, u ≠ t → s'.threads[u]? = s.threads[u]?) ∧
+    ∃ th', s'.threads[t]? = some th' ∧ th'.last = some (op, false) ∧ th'.held = .none ∧
+      (th'.pc = .done ∨ ∃ o, th'.pc = .lock o) := by
+  rw [cfg_is_reference.1] at h
+  exact fail_lock_acquire (reachF_invS h) hth hpc ha hf
+
+/-- **(2)** `p_cond_variable_wait` fails in `p_rwlock_reader_lock` / `p_rwlock_writer_lock`: the caller
+    leaves the wait block without being granted — `active_threads` and the numbers of holders are
+    unchanged, it holds nothing, the value FALSE is decided (and `waiting_threads` is again the number
+    of threads inside the wait blocks: `rw_safety_failing` on `s'`) -/
+theorem failed_wait_acquires_nothing {s s' : State} {t : Tid} {zero : Bool} {th : Thread} {op : Op} {cv : Cv} (h : ReachF cfg s)
+    (hth : s.threads[t]? = some th) (hpc : th.pc = .atWait op cv) (hf : failStep s t zero = some s') :
+    s'.active = s.active ∧ s'.mutex = s.mutex ∧ readers s' = readers s ∧ writers s' = writers s ∧
+    ∃ th', s'.threads[t]? = some th' ∧ th'.pc = .atUnlock op false ∧ th'.held = .none := by
+  rw [cfg_is_reference.1] at h
+  exact fail_wait (reachF_invS h) hth hpc hf
+
+/-- **(3)** … and the return itself: a lock / trylock call that is about to return FALSE through a
+    working `p_mutex_unlock` (trylock not grantable, or after a failed wait) returns FALSE, has not
+    touched `active_threads`, releases the internal mutex and holds nothing -/
+theorem false_return_holds_nothing {s : State} {t : Tid} {th : Thread} {op : Op} (h : ReachF cfg s)
+    (hth : s.threads[t]? = some th) (hpc : th.pc = .atUnlock op false) (ha : op.isAcq = true) :
+    ∃ s', stepThread cfg s t none = some s' ∧ s'.active = s.active ∧ s'.waiting = s.waiting ∧ s'.mutex = none ∧
+      readers s' = readers s ∧ writers s' = writers s ∧
+      ∃ th', s'.threads[t]? = some th' ∧ th'.last = some (op, false) ∧ th'.held = .none := by
+  rw [cfg_is_reference.1] at h ⊢
+  exact return_false_step (reachF_invS h) hth hpc ha
+
+/- The full statement would be: "whenever a lock / trylock call returns FALSE, `active_threads` does not
+   count the caller".  It is FALSE of the code on one path — the final `p_mutex_unlock` of a GRANTED
+   acquire fails: all four functions `return FALSE` there, after `active_threads` was bumped.  What the
+   code does on that path: -/
+
+/-- a failed final `p_mutex_unlock`: the call returns FALSE (TRUE only on the zero-reader-count path
+    of `p_rwlock_reader_unlock`), both counter words and the ghost `held` stay as the call left them,
+    the internal mutex stays owned -/
+theorem failed_unlock_after_grant_keeps_count {s s' : State} {t : Tid} {zero : Bool} {th : Thread} {op : Op} {ret : Bool}
+    (hth : s.threads[t]? = some th) (hpc : th.pc = .atUnlock op ret) (hf : failStep s t zero = some s') :
+    s'.active = s.active ∧ s'.waiting = s.waiting ∧ s'.mutex = s.mutex ∧
+    ∃ th', s'.threads[t]? = some th' ∧ th'.last = some (op, zero && op == .runlock) ∧ th'.held = th.held ∧ th'.pc = .done :=
+  fail_unlock hth hpc hf
+
+/-- the negation of the full statement on a concrete run: one thread, `p_rwlock_reader_lock` is granted,
+    its final `p_mutex_unlock` fails: the call has returned FALSE, yet `READER_COUNT (active_threads) = 1`
+    (and the internal mutex is owned for ever) -/
+theorem false_return_may_keep_count :
+    ∃ s th, ReachF cfg s ∧ s.threads[0]? = some th ∧ th.last = some (.rlock, false) ∧ th.pc = .done ∧
+      READER_COUNT s.active = 1 ∧ s.mutex = some 0 := by
+  obtain ⟨s, hr, hq⟩ := reachF_witness (c := cfg) [[.rlock, .runlock]] [.run 0 none, .fail 0 false]
+    (fun s => s.threads[0]? == some { pc := .done, prog := [], held := .r, last := some (.rlock, false) } &&
+      READER_COUNT s.active == 1 && s.mutex == some 0) (by decide) (by decide) (by decide)
+  simp only [Bool.and_eq_true, beq_iff_eq] at hq
+  exact ⟨s, _, hr, hq.1.1, rfl, rfl, hq.1.2, hq.2⟩
+
+/-- the liveness half needs primitives that work: with ONE failing call a disciplined run deadlocks
+    (reader 0 holds; writer 1 waits; the reader's signal fails: the writer sleeps for ever) -/
+theorem liveness_needs_working_primitives :
+    ∃ s, ReachF cfg s ∧ allDone s = false ∧ ∀ t, ¬ Enabled cfg s t := by
+  obtain ⟨s, hr, hq⟩ := reachF_witness (c := cfg) [[.rlock, .runlock], [.wlock, .wunlock]]
+    [.run 0 none, .run 0 none, .run 1 none, .run 1 none, .run 0 none, .fail 0 false, .run 0 none]
+    (fun s => !allDone s && s.mutex == none && s.threads == [{ pc := .done, prog := [], last := some (.runlock, false) },
+      { pc := .blocked .wlock .write, prog := [.wunlock] }]) (by decide) (by decide) (by decide)
+  simp only [Bool.and_eq_true, Bool.not_eq_true', beq_iff_eq] at hq
+  obtain ⟨⟨h1, _⟩, h3⟩ := hq
+  refine ⟨s, hr, h1, ?_⟩
+  rintro t ⟨pick, s', hs'⟩
+  unfold stepThread at hs'
+  rw [h3] at hs'
+  match t with
+  | 0 => simp [localStep] at hs'
+  | 1 => simp [localStep] at hs'
+  | (n+2) => simp at hs'
+
+/-! ### non-vacuity of section g -/
+
+/-- `failed_lock_acquires_nothing`: a failing `p_mutex_lock` of a writer trylock while a reader holds -/
+example : ∃ s s' th, ReachF cfg s ∧ s.threads[1]? = some th ∧ th.pc = .lock .wtry ∧ failStep s 1 false = some s' ∧ readers s' = 1 := by
+  obtain ⟨s, hr, hq⟩ := reachF_witness (c := cfg) [[.rlock, .runlock], [.wtry, .wunlock]] [.run 0 none, .run 0 none]
+    (fun s => s.threads[1]? == some { pc := .lock .wtry, prog := [.wunlock] } && (failStep s 1 false).any (fun s' => readers s' == 1))
+    (by decide) (by decide) (by decide)
+  simp only [Bool.and_eq_true, beq_iff_eq] at hq
+  cases hf : failStep s 1 false with
+  | none => simp [hf] at hq
+  | some s' => rw [hf] at hq; exact ⟨s, s', _, hr, hq.1, rfl, hf, by simpa using hq.2⟩
+
+/-- `failed_wait_acquires_nothing` / `false_return_holds_nothing`: a writer behind a reader whose wait
+    fails; it then returns FALSE while the reader still holds, and a later writer trylock … -/
+example : ∃ s th, ReachF cfg s ∧ s.threads[1]? = some th ∧ th.last = some (.wlock, false) ∧ readers s = 1 ∧ writers s = 0 ∧
+    s.waiting = 0 ∧ s.mutex = none := by
+  obtain ⟨s, hr, hq⟩ := reachF_witness (c := cfg) [[.rlock, .runlock], [.wlock, .wunlock]]
+    [.run 0 none, .run 0 none, .run 1 none, .fail 1 false, .run 1 none]
+    (fun s => s.threads[1]? == some { pc := .done, prog := [], last := some (.wlock, false) } && readers s == 1 && writers s == 0 &&
+      s.waiting == 0 && s.mutex == none) (by decide) (by decide) (by decide)
+  simp only [Bool.and_eq_true, beq_iff_eq] at hq
+  exact ⟨s, _, hr, hq.1.1.1.1, rfl, hq.1.1.1.2, hq.1.1.2, hq.1.2, hq.2⟩
+
+/-- `rw_safety_failing` covers states no failure-free run reaches: a thread that has stopped still
+    holding (its unlock call failed at `p_mutex_lock`) -/
+example : ∃ s th, ReachF cfg s ∧ s.threads[0]? = some th ∧ th.pc = .done ∧ th.held = .w ∧ writers s = 1 := by
+  obtain ⟨s, hr, hq⟩ := reachF_witness (c := cfg) [[.wlock, .wunlock]] [.run 0 none, .run 0 none, .fail 0 false]
+    (fun s => s.threads[0]? == some { pc := .done, prog := [], held := .w, last := some (.wunlock, false) } && writers s == 1)
+    (by decide) (by decide) (by decide)
+  simp only [Bool.and_eq_true, beq_iff_eq] at hq
+  exact ⟨s, _, hr, hq.1, rfl, rfl, hq.2⟩
 
 /-! ## non-vacuity -/
 
